@@ -1196,3 +1196,130 @@ Proof.
     + intros out c1. destruct (decrypt bsz E iv (mkst m (decbuf c))); [|discriminate].
       intros [= _ <-]. reflexivity.
 Qed.
+
+(* ================= any block-cipher instance; direct constructors; round trip of instances ================= *)
+Section InstProofs.
+  Variable BC : cid -> list N -> list N -> list N.
+  Variable KS : list N -> list N -> nat -> N.
+
+  Lemma iblock_is_cfb c k iv cr :
+    cr_ok (cid_bs c) cr -> cid_bs c <= length iv ->
+    forall ops, exists i',
+      irun BC KS (IBlock c k iv cr) ops = Some (map (cfb_op (cid_bs c) (BC c k) iv) ops, i').
+  Proof.
+    intros Hc Hiv ops.
+    destruct (crun_spec (cid_bs c) (BC c k) iv ops cr (cid_bs_supported c) Hiv Hc) as (cr' & Hrun & _).
+    eexists. apply irun_block. exact Hrun.
+  Qed.
+
+  Lemma direct_is_cfb ctor key iv c k iv' cr :
+    new_direct ctor key iv = Some (IBlock c k iv' cr) -> cid_bs c <= length iv ->
+    k = key /\ iv' = iv /\
+    forall ops, exists i',
+      irun BC KS (IBlock c k iv' cr) ops = Some (map (cfb_op (cid_bs c) (BC c key) iv) ops, i').
+  Proof.
+    unfold new_direct. intros H Hiv.
+    assert (G : forall c0, Some (IBlock c0 key iv (mkcr (repeat 0%N (cid_bs c0)) (repeat 0%N (2 * cid_bs c0))))
+                           = Some (IBlock c k iv' cr) ->
+                k = key /\ iv' = iv /\ cr_ok (cid_bs c) cr).
+    { intros c0 [= -> <- <- <-]. repeat split; cbn [encbuf decbuf]; rewrite repeat_length; lia. }
+    assert (K : k = key /\ iv' = iv /\ cr_ok (cid_bs c) cr).
+    { repeat match type of H with
+             | (if ?b then _ else _) = _ => destruct b
+             end; try discriminate; try (eapply G; exact H). }
+    destruct K as (-> & -> & Hc). repeat split. apply iblock_is_cfb; assumption.
+  Qed.
+
+  (* decrypting what an equally made instance encrypted, any selection in any order *)
+  Definition usable (i : inst) : Prop :=
+    match i with IBlock c _ iv cr => cr_ok (cid_bs c) cr /\ cid_bs c <= length iv | _ => True end.
+
+  Lemma stream_map_roundtrip ks (ms : list (list N)) (sel : list nat) :
+    map (fun j => stream_encrypt ks (nth j (map (stream_encrypt ks) ms) [])) sel = map (fun j => nth j ms []) sel.
+  Proof.
+    apply map_ext. intros j. rewrite (nth_map_nil (stream_encrypt ks) ms eq_refl j).
+    apply (stream_involution ks).
+  Qed.
+
+  Lemma irun_stream k n ops :
+    irun BC KS (IStream k n) ops = Some (map (fun o => stream_encrypt (KS k n) (op_msg o)) ops, IStream k n).
+  Proof. induction ops as [|o r IH]; cbn [irun istep map]; [reflexivity|]. rewrite IH. reflexivity. Qed.
+
+  Lemma irun_none ops : irun BC KS INone ops = Some (map op_msg ops, INone).
+  Proof. induction ops as [|o r IH]; cbn [irun istep map]; [reflexivity|]. rewrite IH. reflexivity. Qed.
+
+  Lemma inst_roundtrip (i : inst) (ms : list (list N)) (sel : list nat) :
+    usable i ->
+    exists cts i1 pts i2,
+      irun BC KS i (map Enc ms) = Some (cts, i1) /\
+      irun BC KS i (map (fun j => Dec (nth j cts [])) sel) = Some (pts, i2) /\
+      pts = map (fun j => nth j ms []) sel /\ map (@length N) cts = map (@length N) ms.
+  Proof.
+    intros Hu. destruct i as [c k iv cr | k n |].
+    - destruct Hu as [Hc Hiv].
+      destruct (iblock_is_cfb c k iv cr Hc Hiv (map Enc ms)) as (i1 & H1).
+      set (cts := map (cfb_op (cid_bs c) (BC c k) iv) (map Enc ms)) in *.
+      destruct (iblock_is_cfb c k iv cr Hc Hiv (map (fun j => Dec (nth j cts [])) sel)) as (i2 & H2).
+      exists cts, i1. eexists. exists i2. split; [exact H1|]. split; [exact H2|]. split.
+      + rewrite map_map. apply map_ext. intros j. cbn [cfb_op]. unfold cts. rewrite map_map. cbn [cfb_op].
+        rewrite (nth_map_nil (fun m => cfb_enc (cid_bs c) (BC c k) (firstn (cid_bs c) iv) m) ms eq_refl j).
+        apply cfb_roundtrip. apply supported_pos, cid_bs_supported.
+      + unfold cts. rewrite !map_map. apply map_ext. intros m. cbn [cfb_op].
+        apply cfb_enc_length. apply supported_pos, cid_bs_supported.
+    - exists (map (fun o => stream_encrypt (KS k n) (op_msg o)) (map Enc ms)), (IStream k n).
+      eexists. exists (IStream k n).
+      split; [apply irun_stream|]. split; [apply irun_stream|].
+      rewrite !map_map. cbn [op_msg]. split.
+      + apply (stream_map_roundtrip (KS k n) ms sel).
+      + apply map_ext. intros m. apply stream_from_length.
+    - assert (Hm : map op_msg (map Enc ms) = ms).
+      { clear. induction ms as [|m r IH]; cbn [map op_msg]; [reflexivity|]. rewrite IH. reflexivity. }
+      exists (map op_msg (map Enc ms)), INone. eexists. exists INone.
+      split; [apply irun_none|]. split; [apply irun_none|]. rewrite Hm. split; [|reflexivity].
+      clear. induction sel as [|j r IH]; cbn [map op_msg]; [reflexivity|]. rewrite IH. reflexivity.
+  Qed.
+
+  Lemma new_crypt_usable name key iv i :
+    new_crypt name key iv = Some i ->
+    (forall c k iv' cr, i = IBlock c k iv' cr -> cid_bs c <= length iv) -> usable i.
+  Proof.
+    unfold new_crypt. intros H Hiv.
+    destruct (factory_kind name) as [c klen | |].
+    - destruct (used_key klen key) as [k|]; [|discriminate]. injection H as <-. cbn [usable]. split.
+      + split; cbn [encbuf decbuf]; rewrite repeat_length; lia.
+      + apply (Hiv c k iv _ eq_refl).
+    - destruct (32 <=? length key); [|discriminate]. injection H as <-. exact I.
+    - injection H as <-. exact I.
+  Qed.
+End InstProofs.
+
+(* separate destination: window of the first buffer into a window of the second *)
+Lemma bstep_to_frame bsz E iv s off n doff :
+  supported bsz -> bsz <= length iv -> cr_ok bsz (inst_cr s) ->
+  off + n <= length (mem1 s) -> doff + n <= length (mem2 s) ->
+  (exists s', bstep bsz E iv s (BEncTo off n doff) = Some s' /\
+     mem1 s' = mem1 s /\ length (mem2 s') = length (mem2 s) /\
+     firstn doff (mem2 s') = firstn doff (mem2 s) /\ skipn (doff + n) (mem2 s') = skipn (doff + n) (mem2 s) /\
+     rd doff n (mem2 s') = cfb_enc bsz E (firstn bsz iv) (rd off n (mem1 s)) /\ cr_ok bsz (inst_cr s')) /\
+  (exists s', bstep bsz E iv s (BDecTo off n doff) = Some s' /\
+     mem1 s' = mem1 s /\ length (mem2 s') = length (mem2 s) /\
+     firstn doff (mem2 s') = firstn doff (mem2 s) /\ skipn (doff + n) (mem2 s') = skipn (doff + n) (mem2 s) /\
+     rd doff n (mem2 s') = cfb_dec bsz E (firstn bsz iv) (rd off n (mem1 s)) /\ cr_ok bsz (inst_cr s')).
+Proof.
+  intros Hs Hiv [Hce Hcd] H1 H2. cbn [bstep].
+  replace (length (mem1 s) <? off + n) with false by (symmetry; apply Nat.ltb_ge; lia).
+  replace (length (mem2 s) <? doff + n) with false by (symmetry; apply Nat.ltb_ge; lia).
+  cbn [orb]. split.
+  - destruct (encrypt_supported bsz E iv (rd off n (mem1 s)) (encbuf (inst_cr s)) Hs Hiv Hce) as (b' & He & Lb).
+    rewrite He. cbn [data buf]. eexists. split; [reflexivity|]. cbn [mem1 mem2 inst_cr]. split; [reflexivity|].
+    assert (Ln : length (cfb_enc bsz E (firstn bsz iv) (rd off n (mem1 s))) = n).
+    { rewrite (cfb_enc_length bsz E (supported_pos bsz Hs)). apply (split3 _ off n H1). }
+    destruct (wr_frame (mem2 s) _ doff n H2 Ln) as (A & B & C & D).
+    repeat split; try assumption; cbn [encbuf decbuf]; lia.
+  - destruct (decrypt_supported bsz E iv (rd off n (mem1 s)) (decbuf (inst_cr s)) Hs Hiv Hcd) as (b' & He & Lb).
+    rewrite He. cbn [data buf]. eexists. split; [reflexivity|]. cbn [mem1 mem2 inst_cr]. split; [reflexivity|].
+    assert (Ln : length (cfb_dec bsz E (firstn bsz iv) (rd off n (mem1 s))) = n).
+    { rewrite (cfb_dec_length bsz E (supported_pos bsz Hs)). apply (split3 _ off n H1). }
+    destruct (wr_frame (mem2 s) _ doff n H2 Ln) as (A & B & C & D).
+    repeat split; try assumption; cbn [encbuf decbuf]; lia.
+Qed.
